@@ -563,6 +563,8 @@ class C11(Prop):
             mu, lam, tau = rng.choice(mus), rng.choice(lams), rng.choice(taus)
             if kind == "lognormal": mu, lam = rng.choice([0.0, 1.0, -2.0, 5.0]), rng.choice([0.1, 0.5, 1.0, 2.0])
             if kind == "gev": tau = rng.choice([-0.2, 0.1, 0.3])       # shape alpha
+            if kind == "gumbel" and rng.random() < 0.85:               # mostly inside exp(-lambda*x)'s normal range (the fit is not shift-invariant)
+                mu = rng.choice([-20.0, 0.0, 5.0, 100.0]) if lam < 10 else rng.choice([-5.0, 0.0, 5.0])
             src = "grid" if (kind in ("exp", "gumbel", "weibull", "lognormal") and rng.random() < 0.5) else "sample"
             if src == "sample":
                 specs.append((kind, n, rng.randrange(1, 2**31), mu, lam, tau))
@@ -1014,6 +1016,8 @@ class C11(Prop):
             z = int(a.get("z", 0)) if kind == "gumbelcens" else 0
             phi = fbits(a["a"]) if kind == "gumbelcens" else 0.0
             if not lam > 0: return "%s fit: lambda=%r" % (kind, lam)
+            # exp(-lambda*x) in or beyond the subnormal range: the sums of lawless416/422 lose their precision (L0, not claimed)
+            if any(abs(lam * x) > 700 for x in xs) or abs(lam * phi) > 700: return None
             base = ll_gumbel(xs, mu, lam, z, phi)
             if not math.isfinite(base): return None
             # mu is the exact maximiser for the returned lambda; lambda is stationary within the Newton tolerance 1e-5 (per sample):
@@ -1032,6 +1036,7 @@ class C11(Prop):
             (mu,) = ps
             if kind == "gumbelloc": lam, z, phi = fbits(a["a"]), 0, 0.0
             else: lam, z, phi = fbits(a["b"]), int(a["z"]), fbits(a["a"])
+            if any(abs(lam * x) > 700 for x in xs) or abs(lam * phi) > 700: return None
             base = ll_gumbel(xs, mu, lam, z, phi)
             if not math.isfinite(base): return None
             for fm in (-d1, d1):
@@ -1065,7 +1070,8 @@ class C11(Prop):
                 mu, lam, tau = ps
                 if mu != min(xs): return "stretched-exponential fit: mu=%r is not the smallest observation %r" % (mu, min(xs))
                 # unbounded likelihood (mu pinned to the smallest sample): the optimiser runs off along the ridge; no maximiser exists
-                if lam * (max(xs) - min(xs)) > 1e8 or tau < 1e-3: return None
+                # (the same with several observations tied at the minimum: the density at x = mu grows without bound as lambda -> inf)
+                if lam * (max(xs) - min(xs)) > 1e8 or tau < 1e-3 or xs.count(min(xs)) > 1: return None
                 ll = lambda l, t: ll_sxp(xs, mu, l, t); p0 = (lam, tau); dd, rt = 0.05, 2e-3
             else:
                 phi = fbits(a["a"]); mu, lam = ps
